@@ -1118,3 +1118,8 @@ LOADS = [
 ]
 
 PROP = Prop()
+
+import parts  # noqa: E402
+import parts_misc  # noqa: E402
+
+parts.attach(PROP, parts_misc.MAPPER, parts_misc.COMMONMISC)   # common.call_mapper; check_python_version and the exception hierarchy (models Forest/MiscMapper.v, MiscCommon.v; theorems at the end of Properties/C14.v)
